@@ -13,7 +13,8 @@
 (*    <<1, mc, v>>     a user-defined global condition is consulted at     *)
 (*                     counter mc and answers v (1 / 0)                    *)
 (* and an end record (final counter, reported evaluation total, activity). *)
-(* One TLC state per event; the clauses are sentences of C03 / C05.        *)
+(* One TLC state per event; the clauses are sentences of C03 / C05, plus   *)
+(* what the finished tree shows of C01 / C02 / C04 / C07 / C08.            *)
 (***************************************************************************)
 EXTENDS Integers, Sequences, FiniteSets, TLC, Json, IOUtils, SequencesExt
 
@@ -42,6 +43,8 @@ Step ==
             \* C05 "returns at the first metaepoch boundary where it does [hold]": a condition that has answered TRUE at
             \* counter k holds at the boundary that ends metaepoch k - nothing happens under a larger counter
             \cup (IF mc # Unknown /\ firstTrue # -1 /\ mc > firstTrue THEN {<<"C05_ReturnsAtFirstBoundary", i>>} ELSE {})
+            \* C01: every point at which the objective is invoked lies inside the box
+            \cup (IF e[1] = 0 /\ e[3] # 1 THEN {<<"C01_EvalInBox", i>>} ELSE {})
        /\ calls' = IF e[1] = 0 THEN calls + 1 ELSE calls
        /\ curMc' = IF mc # Unknown /\ mc > curMc THEN mc ELSE curMc
        /\ prevUpto' = IF mc # Unknown /\ mc > curMc THEN calls ELSE prevUpto
@@ -69,6 +72,12 @@ End ==
          \cup (IF g.kind = "UserLimitOrTarget" /\ firstTrue = -1 THEN {<<"C05_DoneImpliesGsc", f.mc>>} ELSE {})
          \cup (IF g.kind = "UserLimitOrTarget" /\ firstTrue # -1 /\ R.observable = 1 /\ f.mc # firstTrue
                THEN {<<"C05_ReturnsAtFirstBoundary", f.mc>>} ELSE {})
+         \* the finished tree as a user sees it: well-formed (C07), level limit respected (C08), the reported best carries the
+         \* true value of its genome (C02) and - without a local-search level - is the best value the objective ever returned (C04)
+         \cup (IF f.struct # 1 THEN {<<"C07_Structure", f.mc>>} ELSE {})
+         \cup (IF f.overlimit # 0 THEN {<<"C08_ActiveWithinLimit", f.mc>>} ELSE {})
+         \cup (IF f.besttrue # 1 THEN {<<"C02_TrueFitness", f.mc>>} ELSE {})
+         \cup (IF f.bestok # 1 THEN {<<"C04_BestEverObserved", f.mc>>} ELSE {})
          \cup (IF R.observable = 1 /\ f.mc < curMc THEN {<<"C05_CounterEqualsPerformed", f.mc>>} ELSE {})
     /\ i' = i + 1 /\ UNCHANGED <<rid, calls, upto, prevUpto, curMc, firstTrue>>
 
